@@ -239,6 +239,12 @@ func checkNewGameEqualsFresh(hist []HistLine, res *RunResult) {
 	if !ok1 || !ok2 {
 		return
 	}
+	// both searches must have completed the requested depth (a search cut
+	// short by a stop is not a fixed-depth result)
+	want := strings.TrimSpace(strings.TrimPrefix(g1, "go depth"))
+	if o1.depth != want || o2.depth != want {
+		return
+	}
 	res.count("newgame_vs_fresh_compared", 1)
 	if o1.best != o2.best || o1.last != o2.last {
 		res.addViolation("C12", "newgame_differs_from_fresh", fmt.Sprintf("%s / %s: after ucinewgame %q [%s], fresh engine %q [%s]", p1, g1, o1.best, o1.last, o2.best, o2.last))
